@@ -25,7 +25,7 @@ FloatTokConst(t) ==
     IF t \in {"1e-05", "1e+20"} THEN K([k |-> "fstr", s |-> t])
     ELSE LET i == CHOOSE i \in 1..Len(FloatTable) : FloatTable[i][1] = t
          IN K(FltV(FloatTable[i][2], FloatTable[i][3]))
-Idents == {"a", "b", "c", "d", "x", "y", "z", "w", "f", "g", "t", "o", "p", "q", "u", "k1", "k2", "zz",
+Idents == {"a", "b", "c", "d", "x", "y", "z", "w", "f", "g", "t", "o", "p", "q", "u", "m", "k1", "k2", "zz",
            "min", "max", "CSE", "abs", "math", "log"}
 CmpToks == {"==", "!=", "<", "<=", ">", ">="}
 
